@@ -90,7 +90,14 @@ def check_quad(q, t):
     return []
 
 
+def gen_straight_cubic(rng):
+    a = P(rng.uniform(-300, 300), rng.uniform(-300, 300)); b = P(rng.uniform(-300, 300), rng.uniform(-300, 300))
+    u, v = sorted([rng.choice([0.0, 0.05, rng.uniform(0, 0.5)]), rng.choice([1.0, 0.5, rng.uniform(0.5, 1)])])
+    return CubicBezier(a, a.lerp(b, u), a.lerp(b, v), b)
+
+
 def gen_cubic(rng):
+    if rng.random() < 0.3: return gen_straight_cubic(rng)
     # fan-like cubics without self-overlap: x strictly increasing control points
     xs = sorted(rng.uniform(-300, 300) for _ in range(4))
     if xs[3] - xs[0] < 10: xs[3] += 50
